@@ -57,14 +57,14 @@ CLAIMS = {
 
  'C01': dict(
   technique='Lean 4 refinement theorem (lookup = plain map) + trace validation of real runs + plain-map oracle',
-  text=('7 theorems (Props/C01.lean): memGet, level-0 (max-seq) lookup, sorted-level lookup, version.get and DB.get each equal `newest`/`view` over all entries for every lawful comparer, every '
+  text=('17 theorems. Props/C01Seq.lean: for EVERY interleaving of client operations (put, delete, batch, get, has, snapshot acquire/read/release) with adversarially scheduled background steps (rotate, flush, any compaction edit satisfying CompactionOK with minSeq <= every snapshot, trivial moves), the outputs of the LSM model equal those of a plain association-list map (run_refines_spec; get_refines_map, has_iff_get, snapshot_frozen, inv_preserved). Props/C01.lean: memGet, level-0 (max-seq) lookup, sorted-level lookup, version.get and DB.get each equal `newest`/`view` over all entries for every lawful comparer, every '
         'well-formed version and every sequence number (lookup_refines_view); has_iff_get. Together with C03/C06 (every installed version is well formed and flush/compaction preserve views) the answers of a '
         'sequential client are those of a plain map whatever the layout. ' + LSM_TIE),
   note=('Trusted: Lean kernel; propext, Classical.choice, Quot.sound; the hooks and the harness. The model treats a table as its entry list (C13 ties files to entry lists) and the memdb as a sorted list (C14). '
         'Close/reopen is covered by the implementation-side oracle here and by C04 for crash images. Source ordering hypotheses (SourcesOK) are checked on every dumped state by the structural oracle, not proved for concurrent dumps.')),
  'C03': dict(
   technique='Lean 4 theorems (compaction builder preserves every view at or above minSeq; snapshot_stable over the interleaving model) + trace validation + frozen-copy oracle',
-  text=('9 theorems (Props/C03.lean): mergeAll is a sorted permutation of the inputs; build (tableCompactionBuilder.run, rules A and B) returns a sorted sublist and preserves `view` for every reader at s >= minSeq given the '
+  text=('19 theorems: Props/C01Seq.snapshot_frozen (a snapshot read returns the plain-map contents at acquisition whatever writes, rotations, flushes, compactions and moves happen in between; release_keeps_get) and Props/C03.lean: mergeAll is a sorted permutation of the inputs; build (tableCompactionBuilder.run, rules A and B) returns a sorted sublist and preserves `view` for every reader at s >= minSeq given the '
         'base-level side condition; compaction/trivial move/flush edits and any chain of them preserve every such view and version.get; plus C05.snapshot_stable/iterator_stable over the interleaving model. ' + LSM_TIE +
         'minSeq of every real compaction is checked against the snapshots the client holds.'),
   note='Trusted: as C01. The theorem is about readers at or above minSeq; that goleveldb computes minSeq as the oldest registered snapshot is checked per compaction event, iterators are covered by version pinning (C07).'),
